@@ -34,7 +34,7 @@ FAMILY = "c14"
 LEAN_MODULE = "ElfioVerif.Props.C14"
 THEOREMS = ["ElfioVerif.C14." + t for t in (
     "array_add", "array_adds", "array_get", "array_roundtrip", "array_bytes", "array_get_reloaded",
-    "modinfo_add", "modinfo_adds", "modinfo_parse", "modinfo_roundtrip", "modinfo_by_name", "modinfo_parse_reloaded",
+    "modinfo_add", "modinfo_adds", "modinfo_parse", "spec_parse_encode", "modinfo_parse_eq_spec", "modinfo_roundtrip", "modinfo_by_name", "modinfo_parse_reloaded",
     "versym_add", "versym_adds", "versym_get", "versym_roundtrip", "versym_get_reloaded", "versym_bytes_partial",
     "versym_order_witness", "versym_bytes_declared_order_false", "versym_read_witness",
     "verneed_get_eq_spec", "verneed_get_absent", "verdef_get_eq_spec", "verdef_get_absent")]
